@@ -141,6 +141,18 @@ CHECKS = {
         note='Trusted: Lean kernel; standard axioms; extraction of the grammar from the imported classes; the regex lexer itself is not modelled in Lean - its whitespace/separator '
              'behaviour is a law checked on the real code; depth exhaustion of the interpreter is excluded by fuel 300 in the driver (generated nesting is far shallower).',
         technique='Lean 4 proof generic in the grammar table (Tie A regenerates the table) + differential correspondence of the interpreter + laws on the real code', design='5/C05'),
+    'C06': dict(
+        text='Lean 4 theorems: an accepted node consumes at least one token (consumes); for every grammar whose head-symbol relation is ranked (no left recursion) the token-set '
+             'interpreter never exhausts a recursion depth of |tokens|*(R+1)+rank (no_depth, double induction on depth and position); the rank table of the grammar of this run is '
+             'regenerated from the source and checked by decide (generated_rank_check, rankOK_of_check), giving parse_total: AstBuilder.parse on ANY token list either accepts '
+             'the whole list or raises the parser exception, within depth 6n+6. Together with C05 (no None escapes, nothing truncated) this is the model-level totality of parsing. '
+             'The remaining clauses are measured on the real code: outcome classes of translate / compile / exec / evaluate over grammar-derived formulas, mutants and an '
+             'adversarial list (no foreign exception, no class that fails to load, titles and sizes carried, constants evaluate to the stored value), a step counter on '
+             'CompositeBaseToken._get against |classes|*(n+1), wall-clock bounds, dependency chains to 2000 cells through the facade, class_file vs class_object.',
+        note='Partial: "never hangs" is a runtime fact - termination and a depth bound are proved for the parser model, parse steps and time are measured; the translators (one per '
+             'function) are exercised, not modelled: that none of them raises a foreign exception is established by the outcome-class sweep over the grammar-derived inputs only. '
+             'Exceptions at EVALUATION of a member (text arithmetic, 1/0, wrong argument types) are results of the formula and are not counted.',
+        technique='Lean 4 termination proof generic in the grammar + regenerated rank table (Tie A) + outcome-class sweep, step counter and time bounds on the real code', design='5/C06'),
 }
 
 WIP = set()   # built, proofs in progress: not claimed until green
